@@ -577,4 +577,35 @@ def rule_k(ctx: Ctx) -> None:
     ctx.explain('C16.k: in is_restriction / union / intersection the `if` whose test contains `self.namespace == other.namespace` mentions `target_namespace` in its test or body.')
 
 
-RULES = [rule_a, rule_b, rule_c, rule_d, rule_e, rule_f, rule_g, rule_h, rule_i, rule_j, rule_k]
+def other_excludes_both(ctx: Ctx, rule: str) -> None:
+    """`##other` excludes two namespaces: the target namespace of its schema *and* the absent one.  Where intersection() narrows a namespace list by a ##other
+    operand (either way round) both are taken out of the list."""
+    f = ctx.idx.method('xmlschema.validators.wildcards.XsdWildcard', 'intersection')
+    ctx.analysed(f.qualname)
+    n = 0
+    chains = [x for x in ast.walk(f.node) if isinstance(x, ast.If)]
+    for x in chains:
+        t = text(x.test)
+        branches = []
+        if t == "'##other' in self.namespace":
+            branches.append(('self', x.body))
+        if t == "'##other' not in other.namespace" and x.orelse and not (len(x.orelse) == 1 and isinstance(x.orelse[0], ast.If)):
+            branches.append(('other', x.orelse))
+        for who, body in branches:
+            seg = ' '.join(text(b_) for b_ in body)
+            if 'not_namespace' in seg:
+                continue        # the notNamespace form: handled as a set of exclusions (C16.e)
+            n += 1
+            ok = f'{who}.target_namespace' in seg and "''" in seg
+            ctx.ob(rule, f'XsdWildcard.intersection: narrowing a list by the ##other operand `{who}` removes its target namespace and the absent namespace', f.loc(x), ok,
+                   '' if ok else f'the branch `{seg[:70]}` does not remove both: attributeGroup(##other) combined with anyAttribute "##local urn:f urn:t" keeps the absent namespace - an '
+                   'undeclared unqualified attribute is accepted', key=f'XsdWildcard.intersection|other-excludes-both|{who}')
+    ctx.floor(rule, '##other-by-list branches of intersection', n, 2)
+    ctx.explain(f'{rule}: the two branches of XsdWildcard.intersection that narrow a namespace list by a ##other operand mention that operand\'s target_namespace and the empty string.')
+
+
+def rule_l(ctx: Ctx) -> None:
+    other_excludes_both(ctx, 'C16.l')
+
+
+RULES = [rule_a, rule_b, rule_c, rule_d, rule_e, rule_f, rule_g, rule_h, rule_i, rule_j, rule_k, rule_l]
